@@ -482,6 +482,55 @@ def timespan_minus_timespan(ts1, ts2):
     return ts1 - ts2
 
 
+@specs.name('*equal')
+@specs.parameter('dt1', yaqltypes.DateTime())
+@specs.parameter('dt2', yaqltypes.DateTime())
+def datetime_eq_datetime(dt1, dt2):
+    """:yaql:operator =
+
+    Returns true if datetime1 and datetime2 are the same moment of time,
+    false otherwise. A datetime without time zone is taken as UTC, as it is
+    by the ordering operators.
+
+    :signature: left = right
+    :arg left: left datetime object
+    :argType left: datetime object
+    :arg right: right datetime object
+    :argType right: datetime object
+    :returnType: boolean
+
+    .. code::
+
+        yaql> datetime(2011, 11, 11) = datetime(2011, 11, 11)
+        true
+    """
+    return dt1 == dt2
+
+
+@specs.name('*not_equal')
+@specs.parameter('dt1', yaqltypes.DateTime())
+@specs.parameter('dt2', yaqltypes.DateTime())
+def datetime_neq_datetime(dt1, dt2):
+    """:yaql:operator !=
+
+    Returns true if datetime1 and datetime2 are different moments of time,
+    false otherwise. A datetime without time zone is taken as UTC.
+
+    :signature: left != right
+    :arg left: left datetime object
+    :argType left: datetime object
+    :arg right: right datetime object
+    :argType right: datetime object
+    :returnType: boolean
+
+    .. code::
+
+        yaql> datetime(2011, 11, 11) != datetime(2011, 11, 11)
+        false
+    """
+    return dt1 != dt2
+
+
 @specs.name('#operator_>')
 @specs.parameter('dt1', yaqltypes.DateTime())
 @specs.parameter('dt2', yaqltypes.DateTime())
@@ -1178,6 +1227,7 @@ def register(context):
         datetime_plus_timespan, timespan_plus_datetime,
         datetime_minus_timespan, datetime_minus_datetime,
         timespan_plus_timespan, timespan_minus_timespan,
+        datetime_eq_datetime, datetime_neq_datetime,
         datetime_gt_datetime, datetime_gte_datetime,
         datetime_lt_datetime, datetime_lte_datetime,
         timespan_gt_timespan, timespan_gte_timespan,
